@@ -609,7 +609,7 @@ struct Align {
     double c_shift = 0, t_shift = 0, dc = 0, amp = 0;
 };
 
-static Align measure_align(int p, int q, int n) {
+static Align measure_align(int p, int q, int n, const arr_real* hc = nullptr) {
     Align a;
     const int g0 = std::gcd(p, q);
     const int L = p / g0, M = q / g0;
@@ -629,7 +629,7 @@ static Align measure_align(int p, int q, int n) {
             mx += (ld)i * x[i];
         }
         arr_real y;
-        if (!call_resample(0, x, p, q, n, 0, nullptr, y, a.err)) {
+        if (!call_resample(hc ? 2 : 0, x, p, q, n, 0, hc, y, a.err)) {
             a.threw = true;
             return a;
         }
@@ -657,7 +657,7 @@ static Align measure_align(int p, int q, int n) {
         arr_real x(len);
         for (int i = 0; i < len; ++i) x[i] = (double)cosl(2 * PI_L * fin * i);
         arr_real y;
-        if (!call_resample(0, x, p, q, n, 0, nullptr, y, a.err)) {
+        if (!call_resample(hc ? 2 : 0, x, p, q, n, 0, hc, y, a.err)) {
             a.threw = true;
             return a;
         }
@@ -1191,6 +1191,48 @@ int main(int argc, char** argv) {
                 if (m.stop > stop_bound[d])
                     ctx.fail(dn[d], fmt("tone half-way between the new and the old Nyquist rate (input amplitude 1) gives output rms %.3g", m.stop),
                              fmt("<= %.3g (stop-band leakage of the default design x 10)", stop_bound[d]), P().kv("what", "stopband").kv("rms", m.stop));
+            }
+    }
+
+    // ---- alignment of the overload with a caller-supplied symmetric low-pass h (the same delay compensation, other tap counts:
+    //      odd and even numbers of taps per polyphase branch, lengths that are and are not multiples of max(L,M))
+    {
+        for (int p = 1; p <= BR; ++p)
+            for (int q = 1; q <= BR; ++q) {
+                if (p == q) continue;
+                const int g = std::gcd(p, q), L = p / g, M = q / g, mx = std::max(L, M);
+                for (int t : {3, 4, 5, 6, 7, 9, 12})
+                    for (int extra : {0, 1}) {
+                        const int nh = t * mx + extra;
+                        if (!ctx.take("resample.align.h", P().kv("p", p).kv("q", q).kv("nh", nh).kv("path", path_of(p, q)))) continue;
+                        arr_real h(nh);   // sin^2 (Hann-shaped, strictly positive inside) low-pass, symmetric by construction
+                        for (int i = 0; i < nh; ++i) {
+                            const double s1 = std::sin(3.14159265358979323846 * (i + 1) / (nh + 1)), s2 = std::sin(3.14159265358979323846 * (nh - i) / (nh + 1));
+                            h[i] = 0.5 * (s1 * s1 + s2 * s2);
+                        }
+                        Align m = measure_align(p, q, 0, &h);
+                        if (!m.ok) {
+                            ctx.fail("resample", fmt("alignment not measurable with custom h: %s (len=%d)", m.err.c_str(), m.len), "a resampled pulse / tone", P().kv("what", m.threw ? "throw" : "length").kv("overload", "h"));
+                            continue;
+                        }
+                        ctx.nontrivial();
+                        const std::string pth = path_of(p, q);
+                        if (!extra) {
+                            ctx.worst("|centroid shift| custom h " + pth, std::fabs(m.c_shift));
+                            ctx.worst("|tone shift| custom h " + pth, std::fabs(m.t_shift));
+                        }
+                        const double lim = 1.0 + 1e-6;
+                        if (extra) {
+                            // h is padded with trailing zeros to a multiple of max(L,M) and the compensation uses the padded length: the
+                            // output then LEADS by up to (max(L,M)-1)/2 output samples.  The alignment clause of the property names
+                            // resample(x, p, q) with the library's own design; for padded custom filters the shift is recorded, not judged
+                            ctx.worst("|centroid shift| custom h of t*max(L,M)+1 taps (zero-padded by the library; recorded, not judged) " + pth, std::fabs(m.c_shift));
+                            continue;
+                        }
+                        if (!(std::fabs(m.c_shift) <= lim) || !(std::fabs(m.t_shift) <= lim))
+                            ctx.fail("resample", fmt("custom symmetric h of %d taps: output lags the times i*q/p by %+.3f (pulse centroid) / %+.3f (tone phase) output samples", nh, m.c_shift, m.t_shift),
+                                     "|shift| <= 1 output sample", P().kv("what", "shift").kv("overload", "h").kv("cshift", m.c_shift).kv("tshift", m.t_shift));
+                    }
             }
     }
 
